@@ -14,9 +14,8 @@ use crate::{
     packet::{self, Packet, PacketTrait, SignatureType},
     ser::Serialize,
     types::{
-        EncryptionKey, EskType, Fingerprint, Imprint, KeyDetails, KeyId, KeyVersion, PacketLength,
-        Password, PkeskBytes, PublicParams, SignatureBytes, SigningKey, Tag, Timestamp,
-        VerifyingKey,
+        EncryptionKey, EskType, Fingerprint, Imprint, KeyDetails, KeyId, KeyVersion, Password,
+        PkeskBytes, PublicParams, SignatureBytes, SigningKey, Tag, Timestamp, VerifyingKey,
     },
 };
 
@@ -215,9 +214,7 @@ impl Serialize for SignedPublicKey {
     }
 
     fn write_len(&self) -> usize {
-        let key_len = self.primary_key.write_len().try_into().expect("key size");
-        let mut sum = PacketLength::fixed_encoding_len(key_len);
-        sum += key_len as usize;
+        let mut sum = self.primary_key.write_len_with_header();
         sum += self.details.write_len();
         sum += self.public_subkeys.write_len();
         sum
@@ -377,13 +374,9 @@ impl Serialize for SignedPublicSubKey {
     }
 
     fn write_len(&self) -> usize {
-        let key_len = self.key.write_len().try_into().expect("key size");
-        let mut sum = PacketLength::fixed_encoding_len(key_len);
-        sum += key_len as usize;
+        let mut sum = self.key.write_len_with_header();
         for sig in &self.signatures {
-            let sig_len = sig.write_len().try_into().expect("signature size");
-            sum += PacketLength::fixed_encoding_len(sig_len);
-            sum += sig_len as usize;
+            sum += sig.write_len_with_header();
         }
         sum
     }
